@@ -1286,3 +1286,28 @@ pub fn windows_start_index_panics(s: &[u32]) -> u32 {
     }
     acc
 }
+
+// tuple-valued match: each component is one of the arms' components (no correlation assumed)
+pub fn tuple_match_index_safe(a: &[u8; 32], c: u8, p1: u8, p2: u8) -> u8 {
+    if p1 > 0 || p2 > 0 {
+        return 0;
+    }
+    let (pre, ch) = match c {
+        0..=15 => (p1, c),
+        16..=31 => (p2, c - 16),
+        _ => return 0,
+    };
+    a[usize::from(16 * pre + ch)]
+}
+pub fn tuple_match_index_panics(a: &[u8; 32], c: u8, p1: u8, p2: u8) -> u8 {
+    if p1 > 1 || p2 > 1 {
+        return 0;
+    }
+    let (pre, ch) = match c {
+        0..=15 => (p1, c),
+        16..=31 => (p2, c),
+        _ => return 0,
+    };
+    // 16 * 1 + 31 = 47
+    a[usize::from(16 * pre + ch)]
+}
